@@ -117,9 +117,13 @@ def outsideDomain : List Atoms :=
    allTrueBut (idx "all_terms_nonzero_finite"), allTrueBut (idx "sig_valid"), allTrueBut (idx "msg_sized"),
    allTrueBut (idx "pub_key_proved")]
 
-/-- sites that dispatch on an OBJECT built earlier (a tweak chain, a Signer) instead of asking the predicate again: the
-arm is captured at construction, so they keep delegating after `set_libsecp256k1_serving(serving=False)` (and keep to
-the Python arithmetic after `serving=True`).  Answers must not depend on that: harness oracle `held_object`. -/
+/-- sites that dispatch on an OBJECT built earlier (a tweak chain, a Signer) instead of asking the predicate again.
+ONE direction only is captured at construction: an object built while the bindings served HOLDS a bindings-side object
+and keeps delegating after `set_libsecp256k1_serving(serving=False)` (a `_TweakChain` until a cancelling tweak makes it
+drop its chain).  An object built while NOT serving holds nothing, and its use goes through code that asks the flag
+again (`ssa.Signer.sign_` → the free `sign_`; `_TweakChain.point` → `_tweak_add_var`; `dsa.Signer.sign_` → `mult`), so
+after `serving=True` it DOES reach the bindings.  Answers must not depend on any of this: harness oracle `held_object`
+(which also observes these dispatch facts through spies on the bindings entry points). -/
 def heldObjectSites : List Gen.BackendSites.SiteId :=
   [.tweak_chain_point__tweak_add, .dsa_signer_sign__delegated_sign, .ssa_signer_sign__sign_custom]
 
